@@ -218,8 +218,13 @@ func VerifC06Traces() {
 	var cs []*vc06TracesConsumer
 	var tcs []consumer.Traces
 	nRO := 0
+	var wantErrs []error
 	for i := 0; i < n; i++ {
 		c := &vc06TracesConsumer{idx: i, mutates: vChoice("mutates", 2) == 1, mutation: vNondetUint64("mutation")}
+		if vChoice("fails", 2) == 1 {
+			c.err = errors.New("consumer failed")
+			wantErrs = append(wantErrs, c.err)
+		}
 		if !c.mutates {
 			nRO++
 		}
@@ -237,7 +242,11 @@ func VerifC06Traces() {
 	}
 	orig := vc06SnapTraces(td)
 	fan := NewTraces(tcs)
-	_ = fan.ConsumeTraces(context.Background(), td)
+	err := fan.ConsumeTraces(context.Background(), td)
+	vAssert(len(multierr.Errors(err)) == len(wantErrs), "traces/returned-error-aggregates-exactly-the-failures")
+	for _, w := range wantErrs {
+		vAssert(errors.Is(err, w), "traces/returned-error-contains-each-failure")
+	}
 	for _, c := range cs {
 		vAssert(c.calls == 1, "traces/every-consumer-invoked-exactly-once")
 		if c.mutates {
